@@ -7,7 +7,7 @@ fs = []
 for root, dirs, files in os.walk(coq):
     dirs[:] = [d for d in dirs if not d.startswith(".") and d != "scratch"]
     for f in files:
-        if f.endswith(".v") and not f.startswith("."):
+        if f.endswith(".v") and not f.startswith(".") and not f.startswith("Extract"):
             fs.append(os.path.relpath(os.path.join(root, f), coq))
 fs.sort()
 txt = "-Q . GD\n-arg -w -arg -notation-overridden,-deprecated-hint-without-locality,-deprecated-instance-without-locality,-deprecated-hint-rewrite-without-locality\n" + "\n".join(fs) + "\n"
